@@ -17,5 +17,5 @@ Extraction "../build/gx.ml"
   is_topological expr_eqb
   D extend_lin is_zero_expr predict_mode valid_scheme lin_name slot_mode
   to_ode minus ceval c_safe is_int
-  rhs_matrix jacobian default_tries mentions_inter base
+  rhs_matrix jacobian default_tries mentions_assigned base
   save_items find_decl wf_gen gen_rl all_names resv.
